@@ -281,7 +281,15 @@ TEnd == /\ l <= Len(T) /\ Ev.ev = "end"
               /\ (Prop = "C10" => C10Env))
         /\ l' = l + 1 /\ UNCHANGED <<rpvars, tid>>
 
-TNext == TRow \/ TRowsDone \/ TRef \/ TEnd
+\* The same form built in two parts through the builder's `include` mechanism (the JSON form cut at a top-level position, the
+\* tail supplied as an included section): the splice must yield the same actions (setvalue / setgeopoint with ref, event, value
+\* and place) and the same literal instance values as the direct conversion.
+TSectioned == /\ l <= Len(T) /\ Ev.ev = "sectioned"
+              /\ Check("sectioned_build_succeeds", Ev.status = "ok")
+              /\ Check("include_splices_the_same_actions", Ev.same_actions)
+              /\ Check("include_splices_the_same_instance_values", Ev.same_values)
+              /\ l' = l + 1 /\ UNCHANGED <<rpvars, tid>>
+TNext == TRow \/ TRowsDone \/ TRef \/ TEnd \/ TSectioned
 TSpec == TInit /\ [][TNext]_tvars
 
 Accepted == (l = Len(T) + 1) => PrintT(<<"ACCEPT", tid>>)
